@@ -102,8 +102,8 @@ pub fn universe_nrd(sc: &uni::Scratch) -> Tree {
 	for h in 1..=9u32 {
 		let mut spec = BlockSpec::empty(h);
 		if h == 5 {
-			// fan coinbase 1 out into five plain outputs for the NRD transactions
-			spec.txs = vec![uni::spend_coinbase(&kc, 1, REWARD, &[(300, 10 * M), (301, 10 * M), (302, 10 * M), (303, 10 * M), (304, REWARD - 41 * M)], 70)];
+			// fan coinbase 1 out into ten plain outputs for the NRD transactions
+			spec.txs = vec![uni::spend_coinbase(&kc, 1, REWARD, &[(300, 10 * M), (301, 10 * M), (302, 10 * M), (303, 10 * M), (304, 10 * M), (305, 10 * M), (306, 10 * M), (307, 10 * M), (308, 10 * M), (309, REWARD - 91 * M)], 70)];
 		}
 		let i = tb.add(&format!("n{}", h), prev, &spec);
 		prev = Some(i);
@@ -114,25 +114,79 @@ pub fn universe_nrd(sc: &uni::Scratch) -> Tree {
 		// same id => same kernel excess and signature nonce: a duplicate NRD kernel
 		uni::spend_plain(&kc, &[(from, 10 * M)], &[(to, 9 * M)], Some(KernelFeatures::NoRecentDuplicate { fee: (M as u32).into(), relative_height: NRDRelativeHeight::new(r).unwrap() }), 7000 + r)
 	};
-	// first instance (r = 2) at height 10
-	let n10 = tb.add("n10", Some(n9), &BlockSpec::with(10, vec![nrd(2, 300, 310)]));
-	let n11 = tb.add("n11", Some(n10), &BlockSpec::empty(11));
-	// second instance at height 12 = 10 + r: valid; at height 11: one below
+	// first instances at height 10: relative heights 2, 3 and 1 (three different excesses)
+	let n10 = tb.add("n10", Some(n9), &BlockSpec::with(10, vec![nrd(2, 300, 310), nrd(3, 303, 313), nrd(1, 305, 315)]));
+	// r = 1: the very next block may repeat the kernel
+	let n11 = tb.add("n11", Some(n10), &BlockSpec::with(11, vec![nrd(1, 306, 316)]));
+	// second instance of r = 2 at height 12 = 10 + r: valid; at height 11: one below
 	let n12 = tb.add("n12", Some(n11), &BlockSpec::with(12, vec![nrd(2, 301, 311)]));
 	tb.add_invalid("x:nrd2-dup-at-11", Some(n10), &BlockSpec::with(190, vec![nrd(2, 301, 311)]));
-	// third instance at 13 (one block after the second): too recent again
+	// r = 3: two blocks after the first instance is one below, three blocks after is at the threshold
+	tb.add_invalid("x:nrd3-dup-at-12", Some(n11), &BlockSpec::with(193, vec![nrd(3, 304, 314)]));
+	// third instance of r = 2 at 13 (one block after the second): too recent again
 	tb.add_invalid("x:nrd2-dup-at-13", Some(n12), &BlockSpec::with(191, vec![nrd(2, 302, 312)]));
-	let n13 = tb.add("n13", Some(n12), &BlockSpec::empty(13));
+	let n13 = tb.add("n13", Some(n12), &BlockSpec::with(13, vec![nrd(3, 304, 314)]));
 	let _n14 = tb.add("n14", Some(n13), &BlockSpec::with(14, vec![nrd(2, 302, 312)]));
-	// other fork from n9: the duplicate one block after the fork point is fine there (no instance on this fork)
-	let h10 = tb.add("h10", Some(n9), &BlockSpec::empty(110));
-	let h11 = tb.add("h11", Some(h10), &BlockSpec::with(111, vec![nrd(2, 301, 311)]));
+	// other fork from n9: the r = 2 duplicate one block after the fork point is fine there (no instance on
+	// this fork); r = 3 and r = 1 have their first instance at the same height as on the main chain
+	let h10 = tb.add("h10", Some(n9), &BlockSpec::with(110, vec![nrd(3, 303, 313), nrd(1, 305, 315)]));
+	let h11 = tb.add("h11", Some(h10), &BlockSpec::with(111, vec![nrd(2, 301, 311), nrd(1, 306, 316)]));
 	tb.add_invalid("x:nrd2-dup-at-12-on-fork", Some(h11), &BlockSpec::with(192, vec![nrd(2, 302, 312)]));
+	tb.add_invalid("x:nrd3-dup-at-12-on-fork", Some(h11), &BlockSpec::with(194, vec![nrd(3, 304, 314)]));
 	let h12 = tb.add("h12", Some(h11), &BlockSpec::empty(112));
-	let h13 = tb.add("h13", Some(h12), &BlockSpec::with(113, vec![nrd(2, 302, 312)]));
+	let h13 = tb.add("h13", Some(h12), &BlockSpec::with(113, vec![nrd(2, 302, 312), nrd(3, 304, 314)]));
 	let h14 = tb.add("h14", Some(h13), &BlockSpec::empty(114));
 	let _h15 = tb.add("h15", Some(h14), &BlockSpec::empty(115));
-	tb.finish()
+	// transactions offered to Chain::validate_tx (the pool's gate) at every state: one more instance of each
+	// excess, spending outputs no block spends; and one whose input never existed
+	let txs = vec![
+		("t:nrd2".to_string(), nrd(2, 307, 317)),
+		("t:nrd3".to_string(), nrd(3, 308, 318)),
+		("t:nrd1".to_string(), uni::spend_plain(&kc, &[(309, REWARD - 91 * M)], &[(319, REWARD - 92 * M)], Some(KernelFeatures::NoRecentDuplicate { fee: (M as u32).into(), relative_height: NRDRelativeHeight::new(1).unwrap() }), 7001)),
+		("t:nrd2-unknown-input".to_string(), nrd(2, 999, 327)),
+	];
+	let mut t = tb.finish();
+	t.txs = txs;
+	t
+}
+
+/// Reference verdict for Chain::validate_tx at the reference head: every input unspent there, no output
+/// duplicating an unspent commitment, and for every NRD kernel the last instance of its excess on that
+/// chain at least `relative_height` blocks below the NEXT block. Returns (admit?, class for statistics).
+pub fn ref_validate_tx(tree: &Tree, head: Option<usize>, tx: &grin_core::core::Transaction) -> (bool, String) {
+	use crate::ledger::cbytes;
+	let s = tree.state_at(head).expect("reference state of the head");
+	let next = tree.height(head) + 1;
+	for c in crate::ledger::InputCommits::into_iter_commits(tx.inputs()) {
+		if !s.utxo.contains_key(&cbytes(&c)) {
+			return (false, "unknown-input".into());
+		}
+	}
+	for o in tx.outputs() {
+		if s.utxo.contains_key(&cbytes(&o.commitment())) {
+			return (false, "duplicate-output".into());
+		}
+	}
+	let mut cls = "plain".to_string();
+	let mut ok = true;
+	for k in tx.kernels() {
+		if let KernelFeatures::NoRecentDuplicate { relative_height, .. } = k.features {
+			if tree.nrd_enabled {
+				let rh: u64 = relative_height.into();
+				match s.nrd.get(&cbytes(&k.excess)).and_then(|v| v.last().cloned()) {
+					None => cls = format!("nrd{}:no-earlier-instance", rh),
+					Some(last) => {
+						let d = (next - last) as i64 - rh as i64;
+						cls = format!("nrd{}:threshold{:+}", rh, d.clamp(-3, 3));
+						if next - last < rh {
+							ok = false;
+						}
+					}
+				}
+			}
+		}
+	}
+	(ok, cls)
 }
 
 struct Inv13 {
@@ -158,6 +212,18 @@ impl Invariant for Inv13 {
 				}
 			}
 			rep.outcome(&format!("rule:{}:{}", why, if out.ok { "accepted" } else { "rejected" }));
+		}
+		if let Some(Ev::T(i)) = prefix.last() {
+			let (name, tx) = &t.txs[*i];
+			let (ok, cls) = ref_validate_tx(t, live.model.head, tx);
+			if ok != out.ok {
+				rep.violation(
+					if ok { format!("rule:tx-refused-at-or-above-threshold:{}", cls) } else { format!("rule:tx-admitted-below-threshold:{}", cls) },
+					format!("Chain::validate_tx({}) returned {} with the head at height {} but the rule model says {} ({})", name, if out.ok { "Ok".to_string() } else { out.err.clone() }, t.height(live.model.head), if ok { "admit" } else { "refuse" }, cls),
+					case_json(&self.inst, t, prefix),
+				);
+			}
+			rep.outcome(&format!("tx:{}:{}", cls, if out.ok { "admitted" } else { "refused" }));
 		}
 	}
 }
@@ -194,7 +260,8 @@ fn run(which: &str, tier: Tier, shard: usize, n: usize) -> Report {
 		ex.live_check = tier.pick(1, 2);
 		ex.shard = (shard, n);
 		let evs: Vec<Ev> = (0..tree.blocks.len()).filter(|i| !is_lift(*i) && tree.valid(*i).is_ok()).map(Ev::B).collect();
-		let probes: Vec<Ev> = (0..tree.blocks.len()).filter(|i| tree.valid(*i).is_err()).map(Ev::B).collect();
+		let mut probes: Vec<Ev> = (0..tree.blocks.len()).filter(|i| tree.valid(*i).is_err()).map(Ev::B).collect();
+		probes.extend((0..tree.txs.len()).map(Ev::T));
 		if shard == 0 {
 			let kinds: Vec<String> = (0..tree.blocks.len()).filter_map(|i| tree.valid(i).err().map(|(_, b)| format!("{}:{:?}", tree.blocks[i].name, b))).collect();
 			rep.sample(json!({"universe": w, "valid_blocks": evs.len(), "threshold_violations": kinds}));
